@@ -20,67 +20,79 @@
 (* Failed clauses are printed; the cursor always advances.                      *)
 EXTENDS Naturals, Integers, Sequences, FiniteSets, TLC, TraceIO
 
-VARIABLES l, inside, remover, first, scen, seen
-tvars == <<l, inside, remover, first, scen, seen>>
+VARIABLES l, inside, entering, remover, first, scen, seen
+tvars == <<l, inside, entering, remover, first, scen, seen>>
 Ev == Log[l]
 Is(e) == l <= NLog /\ Ev.e = e /\ l' = l + 1
 Report(failed) == IF failed = {} THEN TRUE
                   ELSE PrintT(ToJson([line |-> l, failed |-> failed, what |-> "pSBL", scen |-> scen]))
 Note(x) == seen' = seen \cup {x}
 
-TInit == l = 1 /\ inside = {} /\ remover = 0 /\ first = 0 /\ scen = "-" /\ seen = {}
+TInit == l = 1 /\ inside = {} /\ entering = {} /\ remover = 0 /\ first = 0 /\ scen = "-" /\ seen = {}
 
-TScenario == Is("Scenario") /\ scen' = Ev.name /\ inside' = {} /\ remover' = 0 /\ first' = 0 /\ UNCHANGED seen
+TScenario == /\ Is("Scenario") /\ scen' = Ev.name /\ inside' = {} /\ entering' = {} /\ remover' = 0 /\ first' = 0
+             /\ UNCHANGED seen
 (* ---- the removal phase *)
 TRemoverIn == /\ Is("Acquire") /\ Ev.name = "pSBL.loopLock" /\ Ev.site = "remover"
               /\ Report(IF inside = {} THEN {} ELSE {"removalOverlapsWorker"})
-              /\ remover' = Ev.t /\ Note("removal") /\ UNCHANGED <<inside, first, scen>>
+              /\ remover' = Ev.t /\ Note("removal") /\ UNCHANGED <<inside, entering, first, scen>>
 TRemoverOut == /\ Is("Release") /\ Ev.name = "pSBL.loopLock" /\ Ev.site = "remover"
-               /\ remover' = 0 /\ UNCHANGED <<inside, first, scen, seen>>
-TTryFail == /\ Is("TryFail") /\ Note("tryFail") /\ UNCHANGED <<inside, remover, first, scen>>
+               /\ remover' = 0 /\ UNCHANGED <<inside, entering, first, scen, seen>>
+TTryFail == /\ Is("TryFail") /\ Note("tryFail") /\ UNCHANGED <<inside, entering, remover, first, scen>>
 TPrune == /\ Is("Access") /\ Ev.res = "pSBL.tree" /\ Ev.site = "removeMotion"
           /\ Report(IF remover = Ev.t THEN {} ELSE {"removalOutsideExclusive"})
-          /\ UNCHANGED <<inside, remover, first, scen, seen>>
+          /\ UNCHANGED <<inside, entering, remover, first, scen, seen>>
 (* ---- workers entering / leaving their iteration *)
 Enter(t) == /\ Report((IF remover = 0 THEN {} ELSE {"removalOverlapsWorker"})
                       \cup (IF t \in inside THEN {"readerCountLeaked"} ELSE {}))
             /\ inside' = inside \cup {t}
 Leave(t) == inside' = inside \ {t}
+(* counter scheme: the access to loopCounter_ under loopLockCounter_ opens the entry (the first reader may still have to *)
+(* wait for loopLock_ in there); the entry is complete when loopLockCounter_ is released                              *)
 TEnterCounted == /\ Is("Access") /\ Ev.res = "pSBL.loopCounter" /\ Ev.site = "enter"
-                 /\ Enter(Ev.t) /\ Note("enter") /\ UNCHANGED <<remover, first, scen>>
+                 /\ Report(IF Ev.t \in inside THEN {"readerCountLeaked"} ELSE {})
+                 /\ entering' = entering \cup {Ev.t} /\ Note("enter") /\ UNCHANGED <<inside, remover, first, scen>>
+TCounterUnlocked == /\ Is("Release") /\ Ev.name = "pSBL.loopLockCounter"
+                    /\ IF Ev.t \in entering
+                       THEN /\ Report(IF remover = 0 THEN {} ELSE {"removalOverlapsWorker"})
+                            /\ inside' = inside \cup {Ev.t} /\ entering' = entering \ {Ev.t}
+                       ELSE UNCHANGED <<inside, entering>>
+                    /\ UNCHANGED <<remover, first, scen, seen>>
 TLeaveCounted == /\ Is("Access") /\ Ev.res = "pSBL.loopCounter" /\ Ev.site = "leave"
-                 /\ Leave(Ev.t) /\ Note("leave") /\ UNCHANGED <<remover, first, scen>>
+                 /\ Leave(Ev.t) /\ Note("leave") /\ UNCHANGED <<entering, remover, first, scen>>
 TInit0 == /\ Is("Access") /\ Ev.res = "pSBL.loopCounter" /\ Ev.site = "init"
-          /\ UNCHANGED <<inside, remover, first, scen, seen>>
+          /\ UNCHANGED <<inside, entering, remover, first, scen, seen>>
 (* the first reader locks loopLock_ (the event comes after its @enter access, before the increment) *)
 TFirstReader == /\ Is("Acquire") /\ Ev.name = "pSBL.loopLock" /\ Ev.site = "firstReader"
-                /\ Report(IF inside = {Ev.t} THEN {} ELSE {"readerLockMismatch"})
-                /\ first' = Ev.t /\ Note("firstReader") /\ UNCHANGED <<inside, remover, scen>>
+                /\ Report(IF inside = {} /\ Ev.t \in entering THEN {} ELSE {"readerLockMismatch"})
+                /\ first' = Ev.t /\ Note("firstReader") /\ UNCHANGED <<inside, entering, remover, scen>>
 (* the last reader unlocks it (the event comes after its @leave access) *)
 TLastReader == /\ Is("Release") /\ Ev.name = "pSBL.loopLock" /\ Ev.site = "lastReader"
                /\ Report(IF inside = {} THEN {} ELSE {"readerLockMismatch"})
                /\ Note(IF first = Ev.t THEN "lastReaderIsFirst" ELSE "lastReaderIsOther")
-               /\ first' = 0 /\ UNCHANGED <<inside, remover, scen>>
+               /\ first' = 0 /\ UNCHANGED <<inside, entering, remover, scen>>
 TEnterShared == /\ Is("AcquireShared") /\ Ev.name = "pSBL.loopLock"
-                /\ Enter(Ev.t) /\ Note("enterShared") /\ UNCHANGED <<remover, first, scen>>
+                /\ Enter(Ev.t) /\ Note("enterShared") /\ UNCHANGED <<entering, remover, first, scen>>
 TLeaveShared == /\ Is("ReleaseShared") /\ Ev.name = "pSBL.loopLock"
-                /\ Leave(Ev.t) /\ Note("leaveShared") /\ UNCHANGED <<remover, first, scen>>
+                /\ Leave(Ev.t) /\ Note("leaveShared") /\ UNCHANGED <<entering, remover, first, scen>>
 (* a worker ends: it must have left *)
 TEnd == /\ Is("End")
         /\ Report(IF Ev.t \in inside THEN {"readerCountLeaked"} ELSE {})
-        /\ inside' = inside \ {Ev.t} /\ UNCHANGED <<remover, first, scen, seen>>
+        /\ inside' = inside \ {Ev.t} /\ entering' = entering \ {Ev.t} /\ UNCHANGED <<remover, first, scen, seen>>
 TOther == /\ l <= NLog /\ l' = l + 1
           /\ ~(Ev.e \in {"Scenario", "End", "TryFail", "AcquireShared", "ReleaseShared"})
           /\ ~(Ev.e \in {"Acquire", "Release"} /\ Ev.name = "pSBL.loopLock")
+          /\ ~(Ev.e = "Release" /\ Ev.name = "pSBL.loopLockCounter")
           /\ ~(Ev.e = "Access" /\ Ev.res = "pSBL.loopCounter")
           /\ ~(Ev.e = "Access" /\ Ev.res = "pSBL.tree" /\ Ev.site = "removeMotion")
-          /\ UNCHANGED <<inside, remover, first, scen, seen>>
+          /\ UNCHANGED <<inside, entering, remover, first, scen, seen>>
 (* the last line: what was seen (vacuity) *)
-TNext == TScenario \/ TRemoverIn \/ TRemoverOut \/ TTryFail \/ TPrune \/ TEnterCounted \/ TLeaveCounted \/ TInit0
+TNext == TScenario \/ TRemoverIn \/ TRemoverOut \/ TTryFail \/ TPrune \/ TEnterCounted \/ TCounterUnlocked
+         \/ TLeaveCounted \/ TInit0
          \/ TFirstReader \/ TLastReader \/ TEnterShared \/ TLeaveShared \/ TEnd \/ TOther
 TSpec == TInit /\ [][TNext]_tvars
 NotAccepted == l <= NLog \/ ~PrintT(ToJson([seen |-> seen]))
 TAccept == /\ l = NLog + 1 /\ PrintT(ToJson([accepted |-> NLog, seen |-> seen])) /\ l' = l + 1
-           /\ UNCHANGED <<inside, remover, first, scen, seen>>
+           /\ UNCHANGED <<inside, entering, remover, first, scen, seen>>
 TSpecAnnounce == TInit /\ [][TNext \/ TAccept]_tvars
 ===============================================================================
